@@ -436,7 +436,7 @@ run_tokens_harness!(run_tokens_k6, 6, 8);
 #[kani::stub(<crate::parser::tokenizer::Tokenizer as core::iter::Iterator>::next, stub_next)]
 #[kani::stub(crate::tree::Node::exec, stub_exec)]
 pub fn leftover_every_data_kind() {
-    let p: [u8; 2] = kani::any();
+    let p: &'static [u8] = any_payload(0);
     macro_rules! case {
         ($tok:expr, $code:expr) => {{
             set_script(&[Some(Ok(Token::ProgramMnemonic(b"A"))), Some(Ok($tok)), Some(Ok(Token::ProgramMessageUnitSeparator)), Some(Ok(Token::ProgramMnemonic(b"A")))]);
@@ -456,43 +456,47 @@ pub fn leftover_every_data_kind() {
             assert!(unsafe { EXEC_CALLS } == 1, "C06/Node::run_tokens/the-next-unit-is-not-started");
         }};
     }
-    case!(Token::CharacterProgramData(&p), -108);
-    case!(Token::DecimalNumericProgramData(&p), -108);
-    case!(Token::DecimalNumericSuffixProgramData(&p, b"V"), -108);
+    case!(Token::CharacterProgramData(p), -108);
+    case!(Token::DecimalNumericProgramData(p), -108);
+    case!(Token::DecimalNumericSuffixProgramData(p, b"V"), -108);
     case!(Token::NonDecimalNumericProgramData(kani::any()), -108);
-    case!(Token::StringProgramData(&p), -108);
-    case!(Token::ArbitraryBlockData(&p), -108);
-    case!(Token::ExpressionProgramData(&p), -108);
+    case!(Token::StringProgramData(p), -108);
+    case!(Token::ArbitraryBlockData(p), -108);
+    case!(Token::ExpressionProgramData(p), -108);
     case!(Token::ProgramDataSeparator, -108);
     case!(Token::HeaderQuerySuffix, -102);
-    case!(Token::ProgramMnemonic(&p), -102);
+    case!(Token::ProgramMnemonic(p), -102);
 }
 
 /// Same contract with a fixed-capacity buffer (C11): -225 exactly where the reference says the
 /// next write does not fit, never a panic, never beyond CAP.
-pub fn run_tokens_fixed_body<const CAP: usize>() {
+pub fn run_tokens_fixed_body() {
     let (codes, n, r, q, l) = setup(4);
-    let rf = reference(&codes, &n, &r, &q, &l, CAP);
+    // any fixed-capacity formatter that satisfies the primitive contracts proved for
+    // ArrayVec<u8, CAP> in c10::array_cap*: capacity symbolic 0..=4
+    let cap: usize = kani::any();
+    kani::assume(cap <= 4);
+    let rf = reference(&codes, &n, &r, &q, &l, cap);
     let mut d = KD::new();
     let mut ctx = Context::default();
-    let mut out = arrayvec::ArrayVec::<u8, CAP>::new();
+    let mut out = ArrFmt::new(cap);
     let mut toks = Tokenizer::new(b"").peekable();
     kani::cover!(rf.result == -225);
-    kani::cover!(rf.result == 0 && rf.calls >= 1);
+    kani::cover!(rf.result == 0 && rf.calls >= 1 && rf.out_len == cap);
     let res = T3.run_tokens(&mut d, &mut ctx, &mut toks, &mut out);
     unsafe {
         assert!(EXEC_CALLS == rf.calls, "C11/Node::run_tokens/stops-at-the-unit-whose-response-does-not-fit");
     }
     if rf.result == 0 {
         assert!(res.is_ok(), "C11/Node::run_tokens/a-response-that-fits-succeeds");
-        assert!(out.len() == rf.out_len, "C11/Node::run_tokens/bytes-identical-to-growable-buffer");
-        macro_rules! cmp { ($($j:expr),*) => { $( if $j < rf.out_len && $j < out.len() {
-            assert!(out[$j] == rf.out[$j], "C11/Node::run_tokens/bytes-identical-to-growable-buffer"); } )* }; }
+        assert!(out.len == rf.out_len, "C11/Node::run_tokens/bytes-identical-to-growable-buffer");
+        macro_rules! cmp { ($($j:expr),*) => { $( if $j < rf.out_len && $j < out.len {
+            assert!(out.bytes[$j] == rf.out[$j], "C11/Node::run_tokens/bytes-identical-to-growable-buffer"); } )* }; }
         cmp!(0, 1, 2, 3, 4, 5, 6, 7);
     } else {
         assert!(is_err_code(&res, rf.result), "C11/Node::run_tokens/a-response-that-does-not-fit-fails-with-225");
     }
-    assert!(out.len() <= CAP, "C11/Node::run_tokens/never-writes-beyond-capacity");
+    assert!(out.len <= cap, "C11/Node::run_tokens/never-writes-beyond-capacity");
 }
 
 // ------------------------------------------------------------------ ResponseUnit latch
